@@ -15,7 +15,7 @@ import muxcheck
 import muxgen
 
 LEVEL = "proof"
-CONE = ["Props/C01.v", "Proofs/MuxProofs.v", "Model/Writer.v", "Model/Track.v"]
+CONE = ["Props/C01.v", "Proofs/MuxProofs.v", "Proofs/MuxInv.v", "Model/Writer.v", "Model/Track.v"]
 
 
 def histories(rep):
